@@ -18,6 +18,7 @@ import sys
 import threading as _th
 import time as _time
 import types
+import weakref as _weakref
 
 _real_start = _th.Thread.start
 _real_join = _th.Thread.join
@@ -69,6 +70,7 @@ class Sched(object):
     self.tls.ts = main
     self.counter = collections.Counter()
     self.failed = None
+    self.events = []
 
   def me(self):
     return getattr(self.tls, 'ts', None)
@@ -131,6 +133,8 @@ class Sched(object):
       raise e
 
   def block(self, wake, timeout=None, what=None):
+    """Scheduling point + wait: returns True once wake() holds *at the moment this thread is scheduled*
+    (nothing else runs between that moment and the caller's next visible action), False on timeout."""
     me = self.me()
     if me is None:
       # unmanaged thread (e.g. harness watchdog): spin politely
@@ -140,20 +144,26 @@ class Sched(object):
           return False
         _time.sleep(0.001)
       return True
-    if wake():
-      self.yield_point(what)
-      return True
+    me.steps += 1
     me.wake = wake
     me.timed_out = False
     me.deadline = None if timeout is None else self.now + max(0, timeout)
     self.trace.append((me.name, ('block', what)))
-    self._switch(me)
-    ok = not me.timed_out
-    me.wake = None
-    me.deadline = None
-    me.timed_out = False
+    try:
+      self._switch(me)
+    finally:
+      ok = not me.timed_out
+      me.wake = None
+      me.deadline = None
+      me.timed_out = False
     self._deliver(me)
     return ok
+
+  def log(self, op, obj=None, extra=None):
+    """records an effect at the moment it takes place (the calling thread keeps running until its next
+    scheduling point, so the event log is a linearisation)"""
+    me = self.me()
+    self.events.append((me.name if me else '?', op, obj, extra))
 
   def register_thread(self, thread):
     name = self.names.get(getattr(thread, '_name', None)) or getattr(thread, '_cosched_name', None)
@@ -220,34 +230,44 @@ def _is_alive(self):
   return ts.started and not ts.finished
 
 
+def _managed():
+  s = SCHED
+  return s if (s is not None and s.me() is not None) else None
+
+
 class CoLock(object):
+  """every visible action = [scheduling point][atomic effect + event-log entry]"""
 
   def __init__(self):
     self.owner = None
     self.role = None
 
   def acquire(self, blocking=True, timeout=-1):
-    s = SCHED
-    me = s.me() if s else None
-    if me is None:
+    s = _managed()
+    if s is None:
       self.owner = 'unmanaged'
       return True
+    me = s.me()
     if not blocking:
       s.yield_point(('tryacquire', self.role))
       if self.owner is None:
         self.owner = me
+        s.log('acq', self)
         return True
+      s.log('tryacq-failed', self)
       return False
     ok = s.block(lambda: self.owner is None, None if timeout is None or timeout < 0 else timeout, ('acquire', self.role))
     if ok:
       self.owner = me
+      s.log('acq', self)
     return ok
 
   def release(self):
-    self.owner = None
-    s = SCHED
-    if s is not None and s.me() is not None:
+    s = _managed()
+    if s is not None:
       s.yield_point(('release', self.role))
+      s.log('rel', self)
+    self.owner = None
 
   def locked(self):
     return self.owner is not None
@@ -268,33 +288,39 @@ class CoRLock(object):
     self.role = None
 
   def acquire(self, blocking=True, timeout=-1):
-    s = SCHED
-    me = s.me() if s else None
-    if me is None:
+    s = _managed()
+    if s is None:
       return True
+    me = s.me()
     if self.owner is me:
       self.count += 1
+      s.log('reacq', self)
       return True
     if not blocking:
       s.yield_point(('tryacquire', self.role))
       if self.owner is None:
         self.owner, self.count = me, 1
+        s.log('acq', self)
         return True
+      s.log('tryacq-failed', self)
       return False
     ok = s.block(lambda: self.owner is None, None if timeout is None or timeout < 0 else timeout, ('acquire', self.role))
     if ok:
       self.owner, self.count = me, 1
+      s.log('acq', self)
     return ok
 
   def release(self):
-    s = SCHED
-    me = s.me() if s else None
-    if me is None:
+    s = _managed()
+    if s is None:
       return
-    self.count -= 1
-    if self.count <= 0:
-      self.owner, self.count = None, 0
-      s.yield_point(('release', self.role))
+    if self.count > 1:
+      self.count -= 1
+      s.log('rerel', self)
+      return
+    s.yield_point(('release', self.role))
+    self.owner, self.count = None, 0
+    s.log('rel', self)
 
   def _is_owned(self):
     return SCHED is not None and self.owner is SCHED.me()
@@ -314,26 +340,34 @@ class CoEvent(object):
     self.role = None
 
   def is_set(self):
-    if SCHED is not None:
-      SCHED.yield_point(('is_set', self.role))
+    s = _managed()
+    if s is not None:
+      s.yield_point(('is_set', self.role))
+      s.log('is_set', self, self.flag)
     return self.flag
 
   isSet = is_set
 
   def set(self):
-    if SCHED is not None:
-      SCHED.yield_point(('set', self.role))
+    s = _managed()
+    if s is not None:
+      s.yield_point(('set', self.role))
+      s.log('set', self)
     self.flag = True
 
   def clear(self):
-    if SCHED is not None:
-      SCHED.yield_point(('clear', self.role))
+    s = _managed()
+    if s is not None:
+      s.yield_point(('clear', self.role))
+      s.log('clear', self)
     self.flag = False
 
   def wait(self, timeout=None):
-    if SCHED is None:
+    s = _managed()
+    if s is None:
       return self.flag
-    SCHED.block(lambda: self.flag, timeout, ('wait', self.role))
+    ok = s.block(lambda: self.flag, timeout, ('wait', self.role))
+    s.log('waited', self, ok)
     return self.flag
 
 
@@ -355,36 +389,46 @@ class CoCondition(object):
 
   def wait(self, timeout=None):
     s = SCHED
+    me = s.me()
     token = [False]
     self.waiters.append(token)
-    # release the lock completely
-    saved = None
+    # release the lock completely (atomically with joining the waiters, as threading.Condition does)
+    saved_count = 1
     if isinstance(self.lock, CoRLock):
-      saved = (self.lock.owner, self.lock.count)
+      saved_count = self.lock.count
       self.lock.owner, self.lock.count = None, 0
     else:
       self.lock.owner = None
+    s.log('cond_wait', self)
     ok = s.block(lambda: token[0], timeout, ('cond_wait', self.role))
     if not ok and token in self.waiters:
       self.waiters.remove(token)
     # re-acquire
+    s.block(lambda: self.lock.owner is None, None, ('cond_reacquire', self.role))
     if isinstance(self.lock, CoRLock):
-      s.block(lambda: self.lock.owner is None, None, ('cond_reacquire', self.role))
-      self.lock.owner, self.lock.count = saved
+      self.lock.owner, self.lock.count = me, saved_count
     else:
-      s.block(lambda: self.lock.owner is None, None, ('cond_reacquire', self.role))
-      self.lock.owner = s.me()
+      self.lock.owner = me
+    s.log('cond_woke', self, ok)
     return ok
 
   def notify(self, n=1):
+    s = _managed()
+    if s is not None:
+      s.yield_point(('notify', self.role))
+      s.log('notify', self, min(n, len(self.waiters)))
     for token in self.waiters[:n]:
       token[0] = True
     del self.waiters[:n]
-    if SCHED is not None:
-      SCHED.yield_point(('notify', self.role))
 
   def notify_all(self):
-    self.notify(len(self.waiters))
+    s = _managed()
+    if s is not None:
+      s.yield_point(('notify_all', self.role))
+      s.log('notify', self, len(self.waiters))
+    for token in self.waiters:
+      token[0] = True
+    del self.waiters[:]
 
   notifyAll = notify_all
 
@@ -396,9 +440,11 @@ class CoQueue(object):
     self.role = None
 
   def put(self, item, block=True, timeout=None):
+    s = _managed()
+    if s is not None:
+      s.yield_point(('put', self.role))
+      s.log('put', self, item)
     self.items.append(item)
-    if SCHED is not None:
-      SCHED.yield_point(('put', self.role))
 
   def put_nowait(self, item):
     self.put(item)
@@ -408,12 +454,18 @@ class CoQueue(object):
     if not block:
       s.yield_point(('get_nowait', self.role))
       if not self.items:
+        s.log('get-empty', self)
         raise _queue.Empty()
-      return self.items.popleft()
+      item = self.items.popleft()
+      s.log('get', self, item)
+      return item
     ok = s.block(lambda: bool(self.items), timeout, ('get', self.role))
     if not ok or not self.items:
+      s.log('get-empty', self)
       raise _queue.Empty()
-    return self.items.popleft()
+    item = self.items.popleft()
+    s.log('get', self, item)
+    return item
 
   def get_nowait(self):
     return self.get(False)
@@ -423,6 +475,41 @@ class CoQueue(object):
 
   def qsize(self):
     return len(self.items)
+
+
+class TracedWeakSet(_weakref.WeakSet):
+  """weakref.WeakSet whose add / iteration / clear are visible actions"""
+
+  def add(self, item):
+    s = _managed()
+    if s is not None:
+      s.yield_point(('wadd', None))
+    _weakref.WeakSet.add(self, item)
+    if s is not None:
+      s.log('wadd', self, item)
+
+  def __iter__(self):
+    s = _managed()
+    if s is not None:
+      s.yield_point(('witer', None))
+    items = list(_weakref.WeakSet.__iter__(self))
+    if s is not None:
+      s.log('witer', self, tuple(items))
+    return iter(items)
+
+  def clear(self):
+    s = _managed()
+    if s is not None:
+      s.yield_point(('wclear', None))
+    _weakref.WeakSet.clear(self)
+    if s is not None:
+      s.log('wclear', self)
+
+
+def shim_weakref():
+  ns = types.SimpleNamespace(**{k: getattr(_weakref, k) for k in dir(_weakref) if not k.startswith('__')})
+  ns.WeakSet = TracedWeakSet
+  return ns
 
 
 class VTime(object):
@@ -516,6 +603,7 @@ def install_core():
   sh, vt = shim_threading(), VTime()
   for m in (threads, util, phase_executor, test_executor, test_descriptor, plugs):
     _patch(m, 'threading', sh)
+  _patch(util, 'weakref', shim_weakref())
   _patch(threads, 'ctypes', CoCtypes)
   for m in (phase_executor, timeouts, util, test_executor, test_descriptor):
     if hasattr(m, 'time'):
@@ -529,6 +617,14 @@ def install_core():
     for h in lg.handlers:
       if getattr(h, 'lock', None) is not None:
         h.lock = CoRLock()
+
+
+def install_subscribe():
+  """only what util.SubscribableStateMixin touches"""
+  install_threads()
+  from openhtf import util
+  _patch(util, 'threading', shim_threading())
+  _patch(util, 'weakref', shim_weakref())
 
 
 def install_adb():
@@ -565,3 +661,67 @@ def run(choose, body, max_steps=200000, names=None, watchdog_s=30.0):
         t.gate.release()
     SCHED = None
   return box, s
+
+
+
+class Explorer(object):
+  """Stateless exploration of the schedules of a deterministic multi-threaded body.
+
+  A schedule is a list of choice indices; at every scheduling step the alternatives are ordered
+  [default] + the other runnable threads by tid, where default = keep running the current thread if it
+  is runnable, else the runnable thread with the smallest tid. Index 0 everywhere = the non-preemptive
+  run. `preemption_bound` limits the number of steps at which a runnable current thread is switched out.
+  """
+
+  def __init__(self, preemption_bound=None):
+    self.bound = preemption_bound
+    self.prefix = []
+    self.record = []     # (n_alternatives, chosen, is_preemptive_choice_possible)
+
+  def choose(self, s, runnable, cur):
+    order = sorted(runnable, key=lambda t: t.tid)
+    if cur is not None and cur in order:
+      order.remove(cur)
+      order.insert(0, cur)
+    k = len(self.record)
+    idx = self.prefix[k] if k < len(self.prefix) else 0
+    if idx >= len(order):
+      idx = 0
+    self.record.append((len(order), idx, cur is not None and cur in runnable))
+    return order[idx]
+
+  def next_prefix(self):
+    """the next schedule in DFS order, or None"""
+    rec = self.record
+    for k in range(len(rec) - 1, -1, -1):
+      n, idx, preemptible = rec[k]
+      if idx + 1 >= n:
+        continue
+      if self.bound is not None and preemptible:
+        used = sum(1 for (_, i, p) in rec[:k] if p and i > 0)
+        if used >= self.bound:
+          continue
+      return [r[1] for r in rec[:k]] + [idx + 1]
+    return None
+
+
+def explore(body, preemption_bound=None, limit=None, max_steps=20000, names=None):
+  """yields (box, sched, choices) for every schedule of body (a callable taking the scheduler)"""
+  prefix = []
+  n = 0
+  while prefix is not None and (limit is None or n < limit):
+    ex = Explorer(preemption_bound)
+    ex.prefix = prefix
+    box, s = run(ex.choose, body, max_steps=max_steps, names=names)
+    yield box, s, [r[1] for r in ex.record]
+    n += 1
+    prefix = ex.next_prefix()
+
+
+def random_chooser(rng, switch_prob=0.3):
+  def choose(s, runnable, cur):
+    order = sorted(runnable, key=lambda t: t.tid)
+    if cur is not None and cur in order and rng.random() >= switch_prob:
+      return cur
+    return order[rng.randrange(len(order))]
+  return choose
